@@ -8,7 +8,10 @@ to_big_endian_64 from_big_endian_64 to_big_endian_32 from_big_endian_32 url_enco
 year month day quarter day_of_week day_of_year last_day_of_month date_add date_diff date_trunc""".split()
 LAWS = ["law:reverse_reverse", "law:not_not", "law:from_hex_to_hex", "law:from_base64_to_base64", "law:from_base64url_to_base64url",
         "law:from_base32_to_base32", "law:from_big_endian_64_to", "law:from_big_endian_32_to", "law:url_decode_url_encode",
-        "law:from_utf8_to_utf8", "law:codepoint_chr"]
+        "law:from_utf8_to_utf8", "law:codepoint_chr", "law:from_base_to_base", "law:substring_from_1", "law:date_diff_date_add_day",
+        "law:concat_eq_op", "law:de_morgan", "law:bit_count_incl_excl", "law:length_concat", "law:length_reverse", "law:reverse_concat",
+        "law:upper_lower", "law:levenshtein_symmetric", "law:hamming_symmetric", "law:greatest_commutes", "law:last_day_idempotent",
+        "law:date_trunc_idempotent", "law:left_is_substring", "law:strpos_is_position"]
 UNMODELLED = ("ceil floor round power pow sqrt truncate ln log log2 log10 exp random rand sin cos tan asin acos atan atan2 sinh cosh tanh cot degrees radians "
               "pi e cbrt infinity nan is_finite is_nan is_infinite beta_cdf inverse_beta_cdf normal_cdf inverse_normal_cdf t_cdf t_pdf "
               "wilson_interval_lower wilson_interval_upper cosine_similarity cosine_distance l2_distance dot_product split soundex normalize word_stem "
@@ -23,14 +26,16 @@ ENTRY = {
     "level": "proof",
     "families": [fam("Fn", 6000, 200000)],
     "gen_items": [],
-    "rule": "one case = one SQL statement SELECT f(args) run through ExecutionContext::sql: functions taken round-robin from the modelled list (6 of 7 cases) and "
-            "engine-evaluated laws outer(inner(x)) = x (1 of 7); per case one of three argument modes: all arguments SQL literals (typed NULLs as CAST(NULL AS t)), "
-            "all arguments columns of a registered in-memory table t(id, c0..ck) with 1..4 rows (vectorised path, NULL rows), or mixed; every argument is NULL with "
-            "probability 1/9; generators per argument kind: integers (boundary table incl. i64::MIN/MAX, small, 64-bit random), strings over an alphabet with "
-            "ASCII, 2/3/4-byte code points, whitespace and quotes (lengths 0..14), delimiters, positions incl. 0/negative/beyond, radices incl. invalid, code points incl. "
-            "surrogates and > 0x10FFFF, byte strings (0..20 bytes), valid and corrupted hex/base64/base64url/base32 text, percent-escapes incl. malformed, dates "
-            "(month ends, leap days, years 1..9999 as literals, wider as columns), unit names incl. upper case / unsupported; non-trivial = documented result has a "
-            "non-NULL row or raises; cases whose input class is excluded from the claim (tag f:unclaimed) are not counted; distinct by sha256 of the canonical case",
+    "rule": "one case = one SQL statement SELECT <expr> run through ExecutionContext::sql: 6 of 7 cases are plain calls f(args) taken round-robin from the "
+            "modelled list, 1 of 7 is a LAW evaluated by the engine alone (28 laws: round trips outer(inner(x)) = x, and identities lhs = rhs such as De Morgan, "
+            "bit_count inclusion-exclusion, length(a||b) = length(a)+length(b), concat = ||, symmetry of the distances) judged on the engine's outputs without the "
+            "model; per case one of three argument modes: all arguments SQL literals (typed NULLs as CAST(NULL AS t)), all arguments columns of a registered "
+            "in-memory table t(id, c0..ck) with 1..4 rows (vectorised path, NULL rows), or mixed; every argument is NULL with probability 1/9; generators per "
+            "argument kind: integers (boundary table incl. i64::MIN/MAX, small, 64-bit random), strings over an alphabet with ASCII, 2/3/4-byte code points, "
+            "whitespace and quotes (lengths 0..14), delimiters, positions incl. 0/negative/beyond, radices incl. invalid, code points incl. surrogates and "
+            "> 0x10FFFF, byte strings (0..20 bytes), valid and corrupted hex/base64/base64url/base32 text, percent-escapes incl. malformed, dates (month ends, "
+            "leap days, years 1..9999 as literals, wider as columns), unit names incl. upper case / unsupported; non-trivial = documented result has a non-NULL "
+            "row or raises; cases whose input class is excluded from the claim (tag f:unclaimed) are not judged and not counted; distinct by sha256 of the case",
     "trusted_base": COMMON_TB + [
         "IQE.Spec.Fn IS the reading of the documented (Trino) meaning of each function; it is validated against the engine only where they agree and is otherwise "
         "the judge — a misreading of the documentation would show up as a (wrongly) listed finding, each of which quotes the call and both values",
@@ -41,27 +46,35 @@ ENTRY = {
     "assumptions": [
         "PARTIAL: modelled functions = " + " ".join(MODELLED),
         "NOT MODELLED, nothing claimed: " + " ".join(UNMODELLED),
-        "upper/lower: claimed for ASCII strings only (the engine applies Rust's full Unicode case mapping, Trino per-code-point mapping; neither is written out)",
+        "documented meaning = Trino's (the project documents its functions as Trino-compatible, .claude/plans/trino-function-implementation.md), EXCEPT the "
+        "variants the project's own tests pin or its code applies uniformly, which are modelled as such: to_hex prints lower case; url_encode/url_decode are "
+        "RFC 3986 percent-encoding (space -> %20, '+' not decoded); decoders given undecodable input (from_hex, from_base64*, from_base32, from_base digits, chr of "
+        "a non-scalar value, hamming_distance of different lengths, from_big_endian of short input) return NULL where Trino raises",
+        "excluded input classes (engine-defined, tagged f:unclaimed, never judged): upper/lower on non-ASCII strings; codepoint of a string that is not one "
+        "character; luhn_check with non-digits or ''; split_part with index <= 0 or an empty delimiter; lpad/rpad with an empty pad string; left/right and the "
+        "shifts with a negative count; width_bucket with n <= 0 or equal bounds; from_big_endian of over-long input; from_utf8 / url_decode whose bytes are "
+        "not UTF-8 or whose escapes are malformed; date_add/date_diff/date_trunc with a unit other than day/week/month/quarter/year",
         "trim/ltrim/rtrim: whitespace = Unicode White_Space; U+001C..U+001F and U+180E (where Java and Unicode differ) are not generated",
-        "to_hex prints lower-case digits (pinned by the engine's own tests; Trino prints upper case); from_hex accepts both",
-        "from_base64/base64url/base32: claimed for canonical input (what the encoder produces) and for input with a character outside the alphabet; other non-canonical input is excluded",
-        "from_utf8: claimed for valid UTF-8 only; left/right: claimed for counts >= 0; shifts: claimed for counts >= 0; luhn_check: '' excluded",
         "width_bucket: integer operands in -5..45 and counts <= 100, where the documented double computation is exact",
         "result TYPES are not compared (an integer-valued double equals the integer; Int32 vs Int64 is not distinguished) — that is C30",
         "lpad/rpad with a negative size and repeat/lpad with sizes above 40 are not generated: the real code would allocate without bound (by reading: lpad('a', -1, 'x') asks for 2^64 characters)",
         "bare untyped NULL literals are not generated (most arms reject a NullArray with a type error); typed NULLs and NULL column rows are",
-        "date literals are limited to years 1..9999; other dates are passed as Date32 columns; |days| <= 3.7e6",
+        "date literals are limited to years 1..9999; other dates are passed as Date32 columns; |days| <= 3.7e6; levenshtein/hamming inputs have <= 5 characters",
     ],
-    "min_tags": dict([(f, 12) for f in MODELLED] + [(l, 3) for l in LAWS] + [("mode:lit", 300), ("mode:col", 300), ("mode:mixed", 100), ("out:null", 100), ("out:raises", 50)]),
+    "min_tags": dict([(f, 12) for f in MODELLED] + [(l, 2) for l in LAWS] + [("mode:lit", 300), ("mode:col", 300), ("mode:mixed", 100), ("out:null", 100), ("out:raises", 50)]),
     "manifest": {
         "category": "proof",
         "text": "PARTIAL by design. Lean definitions (IQE.Spec.Fn) of the documented meaning of 85 scalar functions (integer math, 64-bit bitwise, strings over code "
-                "points, conditional expressions, hex/base64/base32/big-endian/URL encodings, proleptic-Gregorian dates) and kernel-checked laws pinning them down "
-                "(NULL rule for every strict function, coalesce/nullif/if/case NULL rules, abs/sign/mod sign rules, NOT involution, De Morgan, bit_count "
-                "inclusion-exclusion, length/concat/reverse/substring/left/right/lpad relations, from_hex(to_hex(b)) = b for all byte strings, ...). Tied to the code "
-                "by running SELECT f(args) through the SQL front door on generated literal and column arguments and comparing with the Lean evaluation; round-trip "
-                "laws are also judged on the engine's own outputs. 24 listed known findings (engine differs from the documented value) are attributed only when the "
-                "engine's output equals the mirrored deviation exactly. Floating-point, regex, JSON, hash, time-zone, array functions are NOT modelled and nothing is claimed for them.",
+                "points, conditional expressions, hex/base64/base64url/base32/big-endian/URL/UTF-8 encodings, proleptic-Gregorian dates) and kernel-checked laws that pin "
+                "them down: NULL rule of every strict function and of coalesce/nullif/if/case/concat_ws; abs/sign/mod sign rules, greatest/least, exact width_bucket "
+                "bounds, from_base(to_base(x,r),r) = x; NOT involution, De Morgan, bit_count inclusion-exclusion; length/concat/reverse/substring/left/right/lpad/"
+                "replace/strpos/translate relations, chr/codepoint inverse, hamming and levenshtein are metrics (incl. triangle inequality), luhn_check accepts every "
+                "generated check digit; decode(encode(b)) = b for ALL byte strings for hex, base64, base64url, base32, big-endian 32/64, and for ALL strings for "
+                "UTF-8 and url_encode; civil_from_days and days_from_civil are mutually inverse on ALL day numbers / valid dates, with the derived laws of "
+                "year/month/day/quarter/day_of_week/day_of_year/last_day_of_month/date_trunc/date_add/date_diff. Tied to the code by running SELECT f(args) through the "
+                "SQL front door on generated literal and column arguments and comparing with the Lean evaluation; 28 laws are also judged on the engine's own outputs "
+                "without the model. 19 listed known findings (engine contradicts the documented value, panics, or reads an argument from row 0 only) are attributed only "
+                "when the engine's output equals the mirrored deviation exactly. Floating-point, regex, JSON, hash, time-zone, array functions are NOT modelled.",
         "design_ref": "DESIGN.md §6 C36",
         "level_note": "Trusted: Lean kernel; axioms propext/Classical.choice/Quot.sound; the reading of the Trino documentation written as IQE.Spec.Fn; harness SQL "
                       "rendering and generators. Partial: the unmodelled functions are listed in the evidence `assumptions`.",
